@@ -15,7 +15,7 @@ Section C09.
      intensity is not below 1e-10 *)
   Theorem C09_shape : forall pv cv o z carrier,
     Permutation (finish N pv cv o z carrier) (keep_real N (raw pv cv o z carrier) false)
-    /\ length (finish N pv cv o z carrier) <= o + 1
+    /\ List.length (finish N pv cv o z carrier) <= o + 1
     /\ (forall x, In x (finish N pv cv o z carrier) -> In x (raw pv cv o z carrier))
     /\ (forall x r, raw pv cv o z carrier = x :: r -> In x (finish N pv cv o z carrier))
     /\ (forall x, In x (raw pv cv o z carrier) -> ltb N (snd x) (tiny10 N) = false -> In x (finish N pv cv o z carrier)).
@@ -46,7 +46,7 @@ Section C09.
   (* exact arithmetic: kept intensities are the shares of the range, non-negative when the probabilities are, and
      they sum to 1 less the share of the omitted variants *)
   Theorem C09_sum : OField N -> forall pv cv o z carrier,
-    length pv = o + 1 -> length cv = o + 1 -> fsum N pv <> zero N ->
+    List.length pv = o + 1 -> List.length cv = o + 1 -> fsum N pv <> zero N ->
     add N (fsum N (map snd (finish N pv cv o z carrier)))
           (fsum N (map snd (filter (fun x => ltb N (snd x) (tiny10 N)) (skip_real N (raw pv cv o z carrier) false))))
     = one N.
